@@ -51,7 +51,7 @@ type BSCase struct {
 }
 
 const c15Rule = "rapid-generated sequences of blockstore calls (Put, PutMany, Get, Has, GetSize, DeleteBlock, HashOnRead on/off), each with a live or an already cancelled context, over blocks of 0..200 bytes (+70 KiB) addressed by CIDv0/v1 x raw/dag-pb/dag-cbor x sha2-256/sha2-512/sha3-512/blake2b-256/blake2b-512/identity up to 300 bytes (multihashes of more than 64 bytes included; sha2 digests also truncated, one length per function and case) built with Prefix.Sum, CID variants of one multihash used interchangeably, deliberately mismatching (data, CID) pairs, 8..12 index bits so blocks share buckets, optionally with the periodic flusher running, and close/reopen of the blockstore between calls; " +
-	"oracle = map keyed by multihash (first Put wins, duplicates silent) + contract clauses: same CID and bytes back, Has/GetSize agree with Get, delete => ipld.IsNotFound, unknown => IsNotFound, cancelled context => error and no effect (verified by later reads), hash-on-read enabled => ErrWrongHash exactly for stored bytes that do not hash to the requested CID, disabled => bytes returned; " +
+	"oracle = map keyed by multihash (first Put wins, duplicates silent) + contract clauses: same CID and bytes back (and the last 8 returned blocks keep their bytes through all later calls), Has/GetSize agree with Get, delete => ipld.IsNotFound, unknown => IsNotFound, cancelled context => error and no effect (verified by later reads), hash-on-read enabled => ErrWrongHash exactly for stored bytes that do not hash to the requested CID, disabled => bytes returned; " +
 	"non-trivial = >=2 CID variants of one multihash used, a delete of a present block, HashOnRead toggled in both directions; distinct = distinct canonical JSON of the case"
 
 var bsCodecs = []uint64{cid.Raw, cid.DagProtobuf, cid.DagCBOR}
@@ -237,6 +237,11 @@ func runBS(c BSCase) (st bsStats, v *Violation) {
 			st.variants = true
 		}
 	}
+	type heldBlock struct {
+		blk  blocks.Block
+		want []byte
+	}
+	var heldBlocks []heldBlock
 	checkRead := func(i int, kind string, id cid.Cid) *Violation {
 		want, present := model[string(id.Hash())]
 		blk, err := bs.Get(context.Background(), id)
@@ -270,6 +275,19 @@ func runBS(c BSCase) (st bsStats, v *Violation) {
 			}
 			if !bytes.Equal(blk.RawData(), want) {
 				return viol("get-present|"+kind+"|wrong-bytes", i, "Get(%s) = %s, model has %s", id, shortBytes(blk.RawData()), shortBytes(want))
+			}
+			// A returned block belongs to the caller: keep the last few and
+			// require that later calls do not change their bytes.
+			for _, h := range heldBlocks {
+				if !bytes.Equal(h.blk.RawData(), h.want) {
+					return viol("returned-block-changed-later|"+kind+"|", i, "the block Get(%s) returned earlier had bytes %s; the same block reads %s now, after later calls", h.blk.Cid(), shortBytes(h.want), shortBytes(h.blk.RawData()))
+				}
+			}
+			if len(want) > 0 {
+				heldBlocks = append(heldBlocks, heldBlock{blk, append([]byte{}, want...)})
+				if len(heldBlocks) > 8 {
+					heldBlocks = heldBlocks[1:]
+				}
 			}
 		}
 		has, err := bs.Has(context.Background(), id)
